@@ -2,6 +2,10 @@
 import CircusModel.Proto
 import CircusModel.Model.FileStream
 import CircusModel.Drv.FileStream
+import CircusModel.Model.GnuArgs
+import CircusModel.Model.Shlex
+import CircusModel.Model.FormatArgs
+import CircusModel.Drv.Argv
 import CircusModel.Core.Types
 import CircusModel.Core.Kernel
 import CircusModel.Core.Watcher
